@@ -162,6 +162,11 @@ class LiteralProvider(LoaderProvider, DumperProvider):
         if not enum_loaders:
             return basic_loader
 
+        # member of IntEnum is equal to int, so loaded member must be compared only with enum cases
+        allowed_values = self._get_allowed_values_collection(
+            [value for value in allowed_values if isinstance(value, Enum)],
+        )
+
         if len(enum_loaders) == 1:
             enum_loader = enum_loaders[0]
 
